@@ -83,7 +83,7 @@ class Interp(ExprMixin):
                 ob.verdict, ob.backend = "discharged", "z3-simplify"
                 self.ctx.obligations.append(ob)
             return
-        ob = Obligation(f"{self.ctx.unit}#{name}", list(state.pc), goal, kind, site, self.ctx.unit, meta)
+        ob = Obligation(f"{self.ctx.unit}#{name}", list(state.pc) + list(state.guards), goal, kind, site, self.ctx.unit, meta)
         ob.meta.setdefault("path", list(state.path))
         self.ctx.obligations.append(ob)
 
@@ -93,6 +93,8 @@ class Interp(ExprMixin):
         for a in INTERN.axioms():
             s.add(a)
         for h in state.pc:
+            s.add(h)
+        for h in state.guards:
             s.add(h)
         r = s.check()
         return r != z3.unsat
